@@ -70,6 +70,7 @@ def run(tier):
     quick = tier == "quick"
     chk.add_model([dict(module="MC_QRFormat.tla", cfg="MC_QRFormat.cfg", workers=4, timeout=3000, heap="6g"),
                    dict(module="MC_Aztec.tla", cfg="MC_Aztec.cfg", workers=4, heap="6g"),
+                   dict(module="MC_AztecSel.tla", cfg="MC_AztecSel_quick.cfg" if quick else "MC_AztecSel_thorough.cfg", workers=6, timeout=3000, heap="4g"),
                    dict(module="MC_PDF417.tla", cfg="MC_PDF417.cfg", workers=4, heap="6g")])
     drive = vlib.build_harness(chk.work)
     jobs = c12_jobs(chk.rng, quick)
